@@ -2639,17 +2639,33 @@ ABTU_ret_err int ABTI_thread_get_mig_data(ABTI_global *p_global,
         (ABTI_thread_mig_data *)ABTI_ktable_get(&p_thread->p_keytable,
                                                 &g_thread_mig_data_key);
     if (!p_mig_data) {
-        int abt_errno;
-        abt_errno =
-            ABTU_calloc(1, sizeof(ABTI_thread_mig_data), (void **)&p_mig_data);
-        ABTI_CHECK_ERROR(abt_errno);
-        abt_errno = ABTI_ktable_set(p_global, p_local, &p_thread->p_keytable,
-                                    &g_thread_mig_data_key, (void *)p_mig_data);
-        if (ABTI_IS_ERROR_CHECK_ENABLED && abt_errno != ABT_SUCCESS) {
-            /* Failed to add p_mig_data to p_thread's keytable. */
-            ABTU_free(p_mig_data);
-            return abt_errno;
+        /* The migration data is created lazily.  Several callers (e.g., two
+         * migration requesters) can get here at the same time for the same
+         * work unit, so the creation is serialized; otherwise both of them
+         * would allocate one and all but the last would be leaked (and used by
+         * their creators though the work unit never sees them). */
+        static ABTD_spinlock mig_data_lock = ABTD_SPINLOCK_STATIC_INITIALIZER();
+        int abt_errno = ABT_SUCCESS;
+        ABTD_spinlock_acquire(&mig_data_lock);
+        p_mig_data =
+            (ABTI_thread_mig_data *)ABTI_ktable_get(&p_thread->p_keytable,
+                                                    &g_thread_mig_data_key);
+        if (!p_mig_data) {
+            abt_errno = ABTU_calloc(1, sizeof(ABTI_thread_mig_data),
+                                    (void **)&p_mig_data);
+            if (!(ABTI_IS_ERROR_CHECK_ENABLED && abt_errno != ABT_SUCCESS)) {
+                abt_errno =
+                    ABTI_ktable_set(p_global, p_local, &p_thread->p_keytable,
+                                    &g_thread_mig_data_key,
+                                    (void *)p_mig_data);
+                if (ABTI_IS_ERROR_CHECK_ENABLED && abt_errno != ABT_SUCCESS) {
+                    /* Failed to add p_mig_data to p_thread's keytable. */
+                    ABTU_free(p_mig_data);
+                }
+            }
         }
+        ABTD_spinlock_release(&mig_data_lock);
+        ABTI_CHECK_ERROR(abt_errno);
     }
     *pp_mig_data = p_mig_data;
     return ABT_SUCCESS;
